@@ -249,6 +249,8 @@ pub struct BfsResult {
     pub transitions: u64,
     pub per_level: Vec<usize>,
     pub frontier_cut: u64,
+    /// successors seen after the distinct-state counter was capped (all were still judged)
+    pub uncounted: u64,
 }
 
 pub fn bfs(depth: usize, size_cap: usize, acc: &mut Acc, state_cap: usize) -> BfsResult {
@@ -258,54 +260,73 @@ pub fn bfs(depth: usize, size_cap: usize, acc: &mut Acc, state_cap: usize) -> Bf
     let mut per_level = vec![frontier.len()];
     let mut ntrans = 0u64;
     let mut cut = 0u64;
+    let mut uncounted = 0u64;
     for lvl in 0..depth {
         let last = lvl + 1 == depth;
-        let parts: Vec<(Acc, Vec<(Vec<u8>, Vec<String>)>, u64)> = frontier
-            .par_chunks(64)
-            .map(|chunk| {
-                let cx = ctx();
-                let mut a = Acc::default();
-                let mut succ = vec![];
-                let mut cut = 0u64;
-                for (b, hist) in chunk {
-                    let v = strict_dec(b).expect("state is canonical by construction");
-                    let ts = transitions(&v, b, &cx);
-                    for t in &ts {
-                        if let Some(nb) = judge(t, &mut a, &|| json!({"initial_and_history": hist, "state": format!("{:?}", v), "state_hex": hex(b)})) {
-                            if nb.len() > size_cap {
-                                cut += 1;
-                            } else if last {
-                                // states of the last level are only counted, never expanded
-                                succ.push((nb, Vec::new()));
-                            } else {
-                                let mut h = hist.clone();
-                                h.push(t.label.clone());
-                                succ.push((nb, h));
+        let mut next = vec![];
+        let mut new_states = 0usize;
+        // the frontier is processed in slices so that only one slice's successors are in memory
+        for slice in frontier.chunks(20_000) {
+            let parts: Vec<(Acc, Vec<(Vec<u8>, Vec<String>)>, u64)> = slice
+                .par_chunks(64)
+                .map(|chunk| {
+                    let cx = ctx();
+                    let mut a = Acc::default();
+                    let mut succ = vec![];
+                    let mut cut = 0u64;
+                    for (b, hist) in chunk {
+                        let v = strict_dec(b).expect("state is canonical by construction");
+                        let ts = transitions(&v, b, &cx);
+                        for t in &ts {
+                            if let Some(nb) = judge(t, &mut a, &|| json!({"initial_and_history": hist, "state": format!("{:?}", v), "state_hex": hex(b)})) {
+                                if nb.len() > size_cap {
+                                    cut += 1;
+                                } else if last {
+                                    // states of the last level are only counted, never expanded
+                                    succ.push((nb, Vec::new()));
+                                } else {
+                                    let mut h = hist.clone();
+                                    h.push(t.label.clone());
+                                    succ.push((nb, h));
+                                }
                             }
                         }
                     }
-                }
-                (a, succ, cut)
-            })
-            .collect();
-        let mut next = vec![];
-        for (a, succ, c) in parts {
-            ntrans += a.evaluations;
-            cut += c;
-            acc.merge(a);
-            for (nb, h) in succ {
-                if seen.len() < state_cap && seen.insert(nb.clone()) {
-                    next.push((nb, h));
+                    // dedupe within the chunk before handing over
+                    succ.sort_by(|x, y| x.0.cmp(&y.0));
+                    succ.dedup_by(|x, y| x.0 == y.0);
+                    (a, succ, cut)
+                })
+                .collect();
+            for (a, succ, c) in parts {
+                ntrans += a.evaluations;
+                cut += c;
+                acc.merge(a);
+                for (nb, h) in succ {
+                    if seen.len() >= state_cap {
+                        // every transition has been executed and judged; only the *count* of distinct
+                        // last-level states stops here (reported as a cap)
+                        if !seen.contains(&nb) {
+                            uncounted += 1;
+                        }
+                        continue;
+                    }
+                    if seen.insert(nb.clone()) {
+                        new_states += 1;
+                        if !last {
+                            next.push((nb, h));
+                        }
+                    }
                 }
             }
         }
-        per_level.push(next.len());
+        per_level.push(new_states);
         frontier = next;
         if frontier.is_empty() {
             break;
         }
     }
-    BfsResult { states: seen.len(), transitions: ntrans, per_level, frontier_cut: cut }
+    BfsResult { states: seen.len(), transitions: ntrans, per_level, frontier_cut: cut, uncounted }
 }
 
 // ---------------------------------------------------------------------------------------------
@@ -380,9 +401,12 @@ pub fn stateright_count(depth: usize, size_cap: usize) -> (usize, bool) {
 
 pub fn spaces(tier: Tier) -> Vec<Space<'static>> {
     let mut sp: Vec<Space> = vec![];
-    let (depth, cap) = if tier.thorough() { (4, 192) } else { (3, 96) };
+    let (depth, cap) = if tier.thorough() { (4, 64) } else { (3, 96) };
     sp.push(Space::new("bfs", 1, move |_, acc| {
-        let r = bfs(depth, cap, acc, 40_000_000);
+        let r = bfs(depth, cap, acc, 60_000_000);
+        if r.uncounted > 0 {
+            acc.note("CAP: distinct-state counter stopped at 60,000,000; further last-level successors judged but not counted as states", r.uncounted);
+        }
         acc.states += r.states as u64;
         acc.nontrivial += r.states as u64;
         acc.note("bfs states", r.states as u64);
@@ -416,7 +440,7 @@ pub fn spaces(tier: Tier) -> Vec<Space<'static>> {
 pub fn meta(tier: Tier) -> (String, serde_json::Value, Vec<String>) {
     (
         "explicit-state breadth-first search: state = canonical document bytes (deduplicated on the full bytes, no abstraction); a transition calls ONE real library function with one argument tuple drawn from the current state: concat (both orders, self), delete_by_name/index/keypath, array_insert, object_insert/delete/pick, strip_nulls, array_distinct/intersection/except, build_array, build_object (both key orders, duplicate keys), every extraction (get_by_index/name/keypath, array_values, object_each, object_keys), every item returned by Selector::select in four modes for a 12-path menu, and the two round trips. Every successor must pass the strict validator and equal the model encoder applied to the same operation on the tree. A stateright model over the same transition function is run at depth 2 and must report the same number of unique states and the same verdict. Non-trivial = every distinct reachable state.".into(),
-        json!({"depth": if tier.thorough() {4} else {3}, "successor_size_cap_bytes": if tier.thorough() {192} else {96}, "initial_states": initial_states().len(), "second_operand_pool": 8, "path_menu": 12}),
+        json!({"depth": if tier.thorough() {4} else {3}, "successor_size_cap_bytes": if tier.thorough() {64} else {96}, "initial_states": initial_states().len(), "second_operand_pool": 8, "path_menu": 12}),
         vec!["successors above the size cap are checked but not expanded (counted)".into()],
     )
 }
